@@ -482,6 +482,7 @@ class EngineWorld:
         self.wait_calls: list[dict] = []
         self.parent_of: dict[int, Any] = {}
         self.dead_runs: dict[str, int] = {}
+        self.terminal_runs: set = set()
         self.ended = False
         boot.reset_ids()
         self.loop.executor_delay = lambda: float(self.tape.choice(self.cfg["grid"], "exec"))
@@ -533,6 +534,8 @@ class EngineWorld:
         u = uid_of(event)
         if u is not None:
             f["uid"] = u
+        if isinstance(event, StopEvent):
+            self.terminal_runs.add(run_id)
         seq = self.trace.log("publish", **f)
         for h in self.publish_hooks:
             h(seq, run_id, event)
@@ -962,7 +965,7 @@ async def drive_resume(world: EngineWorld, spec: dict, *, extra=None) -> dict:
         sl.cancel()
     else:
         await asyncio.sleep(0)
-    if handler.is_done():
+    if handler.is_done() or "run1" in world.terminal_runs:
         world.trace.log("snapshot-skipped", why="run-finished-first")
         outcome["resumed"] = False
         return await _finish(world, spec, handler, consumer1, tasks, outcome)
